@@ -1,7 +1,7 @@
 #!/bin/bash
 # usage: run_all.sh [quick|thorough]  - runs every claimed check in turn and prints one summary line each
 TIER=${1:-quick}
-cd /verif
+cd "$(dirname "$(readlink -f "$0")")"
 rc_all=0
 for P in $(python3 -c "import json;print(' '.join(c['id'] for c in json.load(open('claims.json'))))"); do
   out=$(timeout 7200 /venv/bin/python run.py --property $P --tier $TIER 2>&1); rc=$?
